@@ -609,6 +609,9 @@ type replayer struct {
 	ex    *Exec
 	m     *modelSession
 	salt  int
+	lastInputs []interface{}
+	maxListLen int
+	judgeMs    int
 	twins bool // second strategy: prefer list elements equal to the first one (colliding entries) over diverse bytes
 }
 
@@ -739,7 +742,7 @@ func govcReplayDump(v reflect.Value) interface{} {
 `
 
 // testSource renders the injected test for fn with the given inputs.
-func (rp *replayer) testSource(fn *ssa.Function, inputs []interface{}) (src string, pkgDir string) {
+func (rp *replayer) testSource(fn *ssa.Function, batch [][]interface{}) (src string, pkgDir string) {
 	pkg := fn.Pkg.Pkg
 	imports := map[string]string{} // path -> name
 	qual := func(p *types.Package) string {
@@ -776,7 +779,7 @@ func (rp *replayer) testSource(fn *ssa.Function, inputs []interface{}) (src stri
 	if nres > 0 {
 		assign = strings.Join(lhs, ", ") + " := " + call
 	}
-	inJSON, _ := json.Marshal(inputs)
+	inJSON, _ := json.Marshal(batch)
 	var imp []string
 	for p, n := range imports {
 		imp = append(imp, fmt.Sprintf("\t%s %q", n, p))
@@ -788,14 +791,14 @@ func (rp *replayer) testSource(fn *ssa.Function, inputs []interface{}) (src stri
 	var sb strings.Builder
 	fmt.Fprintf(&sb, "package %s\n\n// Injected by govc (go test -overlay); not part of the repository.\n\nimport (\n\t\"encoding/hex\"\n\t\"encoding/json\"\n\t\"fmt\"\n\t\"math/big\"\n\t\"reflect\"\n\t\"strings\"\n\t\"testing\"\n\n%s\n)\n\nvar _ = strings.HasPrefix\nvar _ = big.NewInt\nvar _ sdkmath.Int\n", pkg.Name(), strings.Join(imp, "\n"))
 	sb.WriteString(replayHelpers)
-	fmt.Fprintf(&sb, "\nfunc TestGovcReplay(t *testing.T) {\n\tvar in []interface{}\n\tif err := json.Unmarshal([]byte(%q), &in); err != nil {\n\t\tt.Fatal(err)\n\t}\n%s\n%s\n\tout := map[string]interface{}{}\n\tfunc() {\n\t\tdefer func() {\n\t\t\tif r := recover(); r != nil {\n\t\t\t\tout[\"panic\"] = fmt.Sprint(r)\n\t\t\t}\n\t\t}()\n\t\t%s\n%s\n\t}()\n\tb, _ := json.Marshal(out)\n\tfmt.Println(\"GOVC-REPLAY \" + string(b))\n}\n",
+	fmt.Fprintf(&sb, "\nfunc TestGovcReplay(t *testing.T) {\n\tvar batch [][]interface{}\n\tif err := json.Unmarshal([]byte(%q), &batch); err != nil {\n\t\tt.Fatal(err)\n\t}\n\tfor _, in := range batch {\n\t\tgovcReplayOne(in)\n\t}\n}\n\nfunc govcReplayOne(in []interface{}) {\n%s\n%s\n\tout := map[string]interface{}{}\n\tfunc() {\n\t\tdefer func() {\n\t\t\tif r := recover(); r != nil {\n\t\t\t\tout[\"panic\"] = fmt.Sprint(r)\n\t\t\t}\n\t\t}()\n\t\t%s\n%s\n\t}()\n\tb, _ := json.Marshal(out)\n\tfmt.Println(\"GOVC-REPLAY \" + string(b))\n}\n",
 		string(inJSON), strings.Join(decl, "\n"), strings.Join(fill, "\n"), assign, strings.Join(dump, "\n"))
 	rel := strings.TrimPrefix(pkg.Path(), "github.com/circlefin/noble-cctp")
 	return sb.String(), filepath.Join(repoDir(), rel)
 }
 
 // runReal injects the test and runs it; returns the dumped outputs.
-func (rp *replayer) runReal(src, pkgDir string) (map[string]interface{}, string) {
+func (rp *replayer) runReal(src, pkgDir string) ([]map[string]interface{}, string) {
 	dir, err := os.MkdirTemp(scratchDir, "replay")
 	if err != nil {
 		return nil, err.Error()
@@ -811,19 +814,22 @@ func (rp *replayer) runReal(src, pkgDir string) (map[string]interface{}, string)
 	cmd.Env = append(os.Environ(), "GOWORK=off", "GOFLAGS=-mod=readonly", "GOPROXY=off", "GOSUMDB=off", "GOTOOLCHAIN=local")
 	outb, _ := cmd.CombinedOutput()
 	out := string(outb)
-	i := strings.Index(out, "GOVC-REPLAY ")
-	if i < 0 {
+	var all []map[string]interface{}
+	for _, line := range strings.Split(out, "\n") {
+		i := strings.Index(line, "GOVC-REPLAY ")
+		if i < 0 {
+			continue
+		}
+		var res map[string]interface{}
+		if err := json.Unmarshal([]byte(line[i+len("GOVC-REPLAY "):]), &res); err != nil {
+			return nil, err.Error()
+		}
+		all = append(all, res)
+	}
+	if len(all) == 0 {
 		return nil, firstN(out, 600)
 	}
-	line := out[i+len("GOVC-REPLAY "):]
-	if j := strings.Index(line, "\n"); j >= 0 {
-		line = line[:j]
-	}
-	var res map[string]interface{}
-	if err := json.Unmarshal([]byte(line), &res); err != nil {
-		return nil, err.Error()
-	}
-	return res, ""
+	return all, ""
 }
 
 // tryReplay follows up a failed obligation; it sets o.replayed only for a confirmed concrete failing input.
@@ -884,13 +890,214 @@ func tryReplay(w *World, ex *Exec, o *Obligation) {
 	base := append(append([]*Term{}, as...), Not(extGoal(goal, true, &ctr)))
 	ex.noCheck++
 	defer func() { ex.noCheck-- }()
+	var seedInputs []interface{}
 	for _, twins := range []bool{false, true} {
 		rp := &replayer{w: w, ex: ex, m: &modelSession{asserts: base, without: o.Without}, twins: twins}
 		if rp.attempt(fn, c, o) {
 			return
 		}
+		if rp.lastInputs != nil {
+			seedInputs = rp.lastInputs
+		}
 		if time.Since(replayStart) > replayBudget {
 			return
+		}
+	}
+	// third strategy: variations (boundary lengths and values, repeated list entries) of the candidate, run as one
+	// batch; the verdict is the same - the real code's result makes an ensures clause provably false, or it panics
+	if variationsUsed > 60*time.Second {
+		return
+	}
+	t0 := time.Now()
+	rp := &replayer{w: w, ex: ex, m: &modelSession{asserts: base, without: o.Without}, judgeMs: 3000}
+	rp.variations(fn, c, o, seedInputs, t0)
+	variationsUsed += time.Since(t0)
+}
+
+// variations: a bounded, deterministic batch of inputs around the candidate (not a proof of anything when it finds
+// nothing; a confirmed counterexample when it does).
+var variationsUsed time.Duration
+
+func (rp *replayer) variations(fn *ssa.Function, c *Contract, o *Obligation, seed []interface{}, started time.Time) {
+	rng := uint64(0x9e3779b97f4a7c15) ^ uint64(solverSeed+1)
+	next := func(n int) int {
+		rng ^= rng << 13
+		rng ^= rng >> 7
+		rng ^= rng << 17
+		return int(rng % uint64(n))
+	}
+	var gen func(t types.Type, depth int) interface{}
+	byteLens := []int{0, 1, 2, 20, 31, 32, 33, 64, 115, 116, 117, 131, 132, 133, 248}
+	mkBytes := func(n int) []byte {
+		b := make([]byte, n)
+		switch next(3) {
+		case 0: // all zero
+		case 1:
+			for i := range b {
+				b[i] = byte(i*7 + 13)
+			}
+		default:
+			for i := range b {
+				b[i] = byte(next(256))
+			}
+		}
+		return b
+	}
+	gen = func(t types.Type, depth int) interface{} {
+		switch classify(t) {
+		case kBool:
+			return next(2) == 0
+		case kInt:
+			w, signed := intInfo(t)
+			max := new(big.Int).Sub(new(big.Int).Lsh(big.NewInt(1), uint(w)), big.NewInt(1))
+			if signed {
+				max.Rsh(max, 1)
+			}
+			opts := []*big.Int{big.NewInt(0), big.NewInt(1), big.NewInt(2), big.NewInt(4), big.NewInt(65), max, new(big.Int).Rsh(max, 1), big.NewInt(int64(next(1000)))}
+			return opts[next(len(opts))].String()
+		case kStr:
+			switch next(6) {
+			case 0:
+				return map[string]interface{}{"hex": ""}
+			case 1:
+				return map[string]interface{}{"hex": hex.EncodeToString([]byte("0x"))}
+			case 2:
+				return map[string]interface{}{"hex": hex.EncodeToString([]byte("zz"))}
+			default:
+				n := []int{1, 2, 20, 32, 33, 36, 37, 48}[next(8)]
+				sp := hex.EncodeToString(mkBytes(n))
+				if next(2) == 0 {
+					sp = "0x" + sp
+				}
+				return map[string]interface{}{"hex": hex.EncodeToString([]byte(sp))}
+			}
+		case kBytes:
+			if next(8) == 0 {
+				return nil
+			}
+			return map[string]interface{}{"hex": hex.EncodeToString(mkBytes(byteLens[next(len(byteLens))]))}
+		case kBig:
+			if next(8) == 0 {
+				return nil
+			}
+			opts := []string{"0", "1", "5", "-1", "345678", "57896044618658097711785492504343953926634992332820282019728792003956564819973", "115792089237316195423570985008687907853269984665640564039457584007913129639935"}
+			return map[string]interface{}{"dec": opts[next(len(opts))]}
+		case kPtr:
+			if depth > 0 && next(6) == 0 {
+				return nil
+			}
+			return gen(t.(*types.Pointer).Elem(), depth+1)
+		case kStruct:
+			st := t.Underlying().(*types.Struct)
+			out := map[string]interface{}{}
+			for i := 0; i < st.NumFields(); i++ {
+				if !strings.HasPrefix(st.Field(i).Name(), "XXX_") {
+					out[st.Field(i).Name()] = gen(st.Field(i).Type(), depth+1)
+				}
+			}
+			return out
+		case kList:
+			et := t.Underlying().(*types.Slice).Elem()
+			n := next(4)
+			out := []interface{}{}
+			for i := 0; i < n; i++ {
+				if i > 0 && next(2) == 0 {
+					out = append(out, out[0]) // a repeated entry
+				} else {
+					out = append(out, gen(et, depth+1))
+				}
+			}
+			return out
+		}
+		return nil
+	}
+	// mix: keep parts of the model-guided candidate (it satisfies the early checks of the path), vary the others
+	var mix func(sv interface{}, t types.Type, depth int) interface{}
+	mix = func(sv interface{}, t types.Type, depth int) interface{} {
+		if sv == nil {
+			return gen(t, depth)
+		}
+		switch classify(t) {
+		case kPtr:
+			return mix(sv, t.(*types.Pointer).Elem(), depth+1)
+		case kStruct:
+			sm, ok := sv.(map[string]interface{})
+			if !ok {
+				return gen(t, depth)
+			}
+			st := t.Underlying().(*types.Struct)
+			out := map[string]interface{}{}
+			for i := 0; i < st.NumFields(); i++ {
+				n := st.Field(i).Name()
+				if strings.HasPrefix(n, "XXX_") {
+					continue
+				}
+				out[n] = mix(sm[n], st.Field(i).Type(), depth+1)
+			}
+			return out
+		case kList:
+			if next(2) == 0 {
+				return gen(t, depth)
+			}
+			return sv
+		}
+		if next(2) == 0 {
+			return sv
+		}
+		return gen(t, depth)
+	}
+	const nVar = 32
+	var batch [][]interface{}
+	for k := 0; k < nVar; k++ {
+		var in []interface{}
+		for i, p := range fn.Params {
+			if seed != nil && i < len(seed) {
+				in = append(in, mix(seed[i], p.Type(), 0))
+			} else {
+				in = append(in, gen(p.Type(), 0))
+			}
+		}
+		batch = append(batch, in)
+	}
+	src, pkgDir := rp.testSource(fn, batch)
+	all, _ := rp.runReal(src, pkgDir)
+	if len(all) != len(batch) {
+		return
+	}
+	for k, res := range all {
+		if os.Getenv("GOVC_TRACE") != "" {
+			ij, _ := json.Marshal(batch[k])
+			rj, _ := json.Marshal(res)
+			fmt.Fprintf(os.Stderr, "[trace] variation %d: in=%s out=%s\n", k, firstN(string(ij), 700), firstN(string(rj), 200))
+		}
+		if variationsUsed+time.Since(started) > 60*time.Second {
+			return
+		}
+		confirm := func(note string, clause string) {
+			one, _ := rp.testSource(fn, [][]interface{}{batch[k]})
+			o.replayed = true
+			o.replayNote = note
+			o.replayData = map[string]interface{}{"function": fnName(fn), "inputs": batch[k], "observed": res, "go_test": one,
+				"found_by": "a bounded batch of variations around the model-guided candidate (boundary lengths and values, repeated entries)"}
+			if clause != "" {
+				o.replayData["refuted_clause"] = clause
+			}
+		}
+		if pm, ok := res["panic"]; ok {
+			if o.Kind == "nopanic" || o.Kind == "requires" {
+				confirm(fmt.Sprintf("confirmed on the real code: %s panics on this input: %v", fnName(fn), pm), "")
+				return
+			}
+			continue
+		}
+		if o.Kind == "nopanic" {
+			continue
+		}
+		for _, cl := range c.byKind("ensures") {
+			if ok, why := rp.clauseRefuted(fn, c, o, cl, batch[k], res); ok {
+				confirm(fmt.Sprintf("confirmed on the real code: for this input the observed result makes ensures[%s] false (%s)", cl.Label, why), cl.Text)
+				return
+			}
 		}
 	}
 }
@@ -907,17 +1114,19 @@ func (rp *replayer) attempt(fn *ssa.Function, c *Contract, o *Obligation) bool {
 		inputs = append(inputs, j)
 	}
 	repaired := rp.repairInputs(fn, o, inputs)
-	src, pkgDir := rp.testSource(fn, inputs)
-	res, errText := rp.runReal(src, pkgDir)
+	rp.lastInputs = inputs
+	src, pkgDir := rp.testSource(fn, [][]interface{}{inputs})
+	all, errText := rp.runReal(src, pkgDir)
 	data := map[string]interface{}{"function": fnName(fn), "inputs": inputs, "model_solver_calls": rp.m.calls, "go_test": src}
 	if len(repaired) > 0 {
 		data["inputs_made_realistic"] = repaired
 	}
 	o.replayData = data
-	if res == nil {
+	if len(all) != 1 {
 		o.replayNote = "candidate input found but the injected test did not run: " + errText
 		return false
 	}
+	res := all[0]
 	data["observed"] = res
 	if pm, ok := res["panic"]; ok {
 		if o.Kind == "nopanic" || o.Kind == "requires" {
@@ -1070,8 +1279,21 @@ func (rp *replayer) literal(st *State, t types.Type, j interface{}) Value {
 		et := t.Underlying().(*types.Slice).Elem()
 		l := ex.emptyList(et)
 		arr, _ := j.([]interface{})
+		if len(arr) > rp.maxListLen {
+			rp.maxListLen = len(arr)
+		}
 		for _, ej := range arr {
 			l = ex.listAppend(st, l, rp.literal(st, et, ej))
+		}
+		// ground terms for every entry, so that quantified clauses over the list's indices have instances to match
+		for i := range arr {
+			for name, col := range l.Cols {
+				_, elemSort := arraySorts(col.Sort)
+				st.assume(Eq(Fresh("lit."+name, elemSort), Select(col, BV(64, int64(i)))))
+			}
+			if w := 64; true {
+				st.assume(App(fmt.Sprintf("trig%d", w), SBool, BV(64, int64(i))))
+			}
 		}
 		return l
 	}
@@ -1091,6 +1313,12 @@ func (rp *replayer) clauseRefuted(fn *ssa.Function, c *Contract, o *Obligation, 
 	if err != nil {
 		return false, ""
 	}
+	// spec functions of the contract file may name parameters (the receiver) by their source names
+	for i, p := range fn.Params {
+		if _, ok := vars[p.Name()]; !ok {
+			vars[p.Name()] = largs[i]
+		}
+	}
 	pre := st.clone()
 	solve := func(st *State, goal *Term) string {
 		if goal == TFalse {
@@ -1102,12 +1330,25 @@ func (rp *replayer) clauseRefuted(fn *ssa.Function, c *Contract, o *Obligation, 
 		for _, w := range c.Without {
 			delete(used, w)
 		}
-		return Solve(Script(as, buildPrelude(used), nil), 10000).Status
+		ms := rp.judgeMs
+		if ms == 0 {
+			ms = 10000
+		}
+		text := Script(as, buildPrelude(used), nil)
+		r := Solve(text, ms)
+		if k := os.Getenv("GOVC_KEEP"); k != "" && r.Status != "unsat" {
+			os.WriteFile(filepath.Join(k, fmt.Sprintf("judge-%s-%d.smt2", r.Status, time.Now().UnixNano())), []byte(text), 0o644)
+		}
+		return r.Status
 	}
 	ctx0 := &EvalCtx{ex: ex, pre: pre, post: pre, vars: vars, bound: map[string]Value{}, fn: fn}
+	trace := os.Getenv("GOVC_TRACE") != ""
 	for _, rq := range c.byKind("requires") {
 		t, err := ctx0.EvalBool(rq.E)
 		if err != nil || (t != TTrue && solve(pre, Not(t)) != "unsat") {
+			if trace {
+				fmt.Fprintf(os.Stderr, "[trace] judge: requires[%s] not established (%v)\n", rq.Label, err)
+			}
 			return false, "" // the candidate is not shown to satisfy the contract's precondition: proves nothing
 		}
 	}
@@ -1127,15 +1368,38 @@ func (rp *replayer) clauseRefuted(fn *ssa.Function, c *Contract, o *Obligation, 
 	ctx := &EvalCtx{ex: ex, pre: pre, post: st, vars: vars, bound: map[string]Value{}, fn: fn}
 	t, err2 := ctx.EvalBool(cl.E)
 	if err2 != nil {
+		if trace {
+			fmt.Fprintf(os.Stderr, "[trace] judge: ensures[%s] cannot be evaluated: %v\n", cl.Label, err2)
+		}
 		return false, ""
 	}
 	for _, s := range ctx.side {
 		st.assume(s)
 	}
-	if solve(st, t) != "unsat" {
+	if t == TTrue {
+		return false, "" // the clause holds on these constants
+	}
+	facts := st.clone() // the input/output facts alone, for the vacuity check below
+	// instances of the clause's index quantifiers at the positions the literal lists actually have: consequences of
+	// the clause, stated so that the solver need not guess them
+	if n := rp.maxListLen; n > 0 && n <= 4 {
+		gi := groundInstances(t, n, 0)
+		if trace {
+			fmt.Fprintf(os.Stderr, "[trace] judge: ensures[%s]: %d ground instances (lists up to %d), clause op %s\n", cl.Label, len(gi), n, t.Op)
+		}
+		for _, g := range gi {
+			if g != t {
+				st.assume(g)
+			}
+		}
+	}
+	if r := solve(st, t); r != "unsat" {
+		if trace {
+			fmt.Fprintf(os.Stderr, "[trace] judge: ensures[%s] not refuted (%s)\n", cl.Label, r)
+		}
 		return false, ""
 	}
-	if solve(st, Not(t)) == "unsat" {
+	if solve(facts, Not(t)) == "unsat" {
 		return false, "" // contradictory facts: a vacuous refutation
 	}
 	how := "the clause evaluates to false on these constants"
@@ -1171,7 +1435,11 @@ func cmdReplay(args []string) int {
 	fnKey, _ := rp["function"].(string)
 	rel := map[string]string{"types": "x/cctp/types", "keeper": "x/cctp/keeper", "cli": "x/cctp/client/cli", "cctp": "x/cctp"}[strings.SplitN(fnKey, ".", 2)[0]]
 	r := &replayer{}
-	res, errText := r.runReal(src, filepath.Join(repoDir(), rel))
+	allRes, errText := r.runReal(src, filepath.Join(repoDir(), rel))
+	var res map[string]interface{}
+	if len(allRes) > 0 {
+		res = allRes[0]
+	}
 	in, _ := json.Marshal(rp["inputs"])
 	fmt.Printf("  function: %s\n  input:    %s\n", fnKey, in)
 	if res == nil {
@@ -1184,4 +1452,54 @@ func cmdReplay(args []string) int {
 		fmt.Printf("  refuted clause: %v\n", cl)
 	}
 	return 1
+}
+
+// groundInstances: consequences of t obtained by instantiating its (possibly nested, possibly guarded) universal
+// quantifiers over 64-bit index variables at 0..n-1.
+func groundInstances(t *Term, n int, depth int) []*Term {
+	if depth > 3 {
+		return []*Term{t}
+	}
+	switch t.Op {
+	case "forall":
+		for _, b := range t.Bound {
+			if b.Sort != SBV(64) {
+				return []*Term{t}
+			}
+		}
+		var out []*Term
+		var rec func(i int, sub map[*Term]*Term)
+		rec = func(i int, sub map[*Term]*Term) {
+			if len(out) > 64 {
+				return
+			}
+			if i == len(t.Bound) {
+				out = append(out, groundInstances(Subst(t.Args[0], sub), n, depth+1)...)
+				return
+			}
+			for v := 0; v < n; v++ {
+				s2 := map[*Term]*Term{}
+				for k, x := range sub {
+					s2[k] = x
+				}
+				s2[t.Bound[i]] = BV(64, int64(v))
+				rec(i+1, s2)
+			}
+		}
+		rec(0, map[*Term]*Term{})
+		return out
+	case "=>":
+		var out []*Term
+		for _, g := range groundInstances(t.Args[1], n, depth) {
+			out = append(out, Implies(t.Args[0], g))
+		}
+		return out
+	case "and":
+		var out []*Term
+		for _, a := range t.Args {
+			out = append(out, groundInstances(a, n, depth)...)
+		}
+		return out
+	}
+	return []*Term{t}
 }
